@@ -1366,6 +1366,27 @@ func (b *beacon) CloneUnorderedTreasures(thenReset bool) map[string]treasure.Tre
 
 	atomic.StoreInt32(&b.initialized, 1)
 
+	if !thenReset {
+		// Take the record pointers under the lock and clone them after releasing it. Waiting for a
+		// record guard while the beacon mutex is held inverts the lock order of every writer: a guard
+		// holder (Delete, every Shift* removal, a Save of a new key, PatchExpired's re-check) goes on
+		// to lock this beacon (Delete / Add / Get), so both sides would wait for each other forever.
+		b.mu.RLock()
+		live := make([]treasure.Treasure, 0, len(b.treasuresByKeys))
+		for _, value := range b.treasuresByKeys {
+			live = append(live, value)
+		}
+		b.mu.RUnlock()
+
+		treasuresClone := make(map[string]treasure.Treasure, len(live))
+		for _, value := range live {
+			guardID := value.StartTreasureGuard(true)
+			treasuresClone[value.GetKey()] = value.Clone(guardID)
+			value.ReleaseTreasureGuard(guardID)
+		}
+		return treasuresClone
+	}
+
 	b.mu.Lock()
 	defer b.mu.Unlock()
 
